@@ -114,6 +114,28 @@ Theorem C05_mxl_time_complete : forall sc : score,
 Proof. exact (fun sc => time_complete (tokens sc)). Qed.
 Print Assumptions C05_mxl_time_complete.
 
+(** ** mxl_harmony [ext] — every well-formed <harmony> yields its figure string
+    (root ++ kind abbreviation ++ "(degree)"* ++ "/bass", a function of the
+    element and of the transposition in force: [harmony_figure]) at the cursor
+    plus <offset> divisions; a malformed one yields no event (it raises). *)
+Theorem C05_mxl_harmony_events : forall sc : score,
+  Forall2 ev_eq (filter is_chord (snd (run_toks init_st (tokens sc)))) (chords_from [] (tokens sc)).
+Proof. exact (fun sc => chord_events_refine (tokens sc)). Qed.
+Print Assumptions C05_mxl_harmony_events.
+
+(** C#m7(add9)(b5)(no3)/Eb; and the rejections: transposing part, no root,
+    unknown kind, alteration by zero semitones. *)
+Example C05_mxl_harmony_figure_example :
+  harmony_figure 0 (Some (0, Some 1)) (kind_index MINOR_SEVENTH)
+                 [(9, None, 0); (5, Some (-1), 2); (3, None, 1)] (Some (2, Some (-1))) =
+  Some [67; 35; 109; 55; 40; 97; 100; 100; 57; 41; 40; 98; 53; 41; 40; 110; 111; 51; 41; 47; 69; 98] /\
+  harmony_figure (-2) (Some (0, None)) (kind_index MINOR_SEVENTH) [] None = None /\
+  harmony_figure 0 None (kind_index MINOR_SEVENTH) [] None = None /\
+  harmony_figure 0 (Some (0, None)) (-2) [] None = None /\
+  harmony_figure 0 (Some (0, None)) (kind_index MINOR_SEVENTH) [(5, None, 2)] None = None.
+Proof. exact figure_example. Qed.
+Print Assumptions C05_mxl_harmony_figure_example.
+
 (** ** The reader: what musicxml_to_sequence_proto does with the events
     (notes of non-rests with start = max(onset, 0); the first part's tempo marks
     or one default entry; de-duplicated time and key signatures; key table). *)
@@ -124,6 +146,7 @@ Theorem C05_reader : forall sc o,
   q_tempos o = (match ev_tempos0 es with [] => [(0%Q, qpm_at (rev (tokens sc)))] | l => l end) /\
   q_tsigs o = map (fun x => let '(n, d, t) := x in (t, n, d)) (dedup (ev_times es)) /\
   conv_keys (match dedup (ev_keys es) with [] => [(0, 0, 0%Q)] | l => l end) = Some (q_ksigs o) /\
+  q_chords o = ev_chords es /\
   s_err (fst (run_toks init_st (tokens sc))) = 0.
 Proof. exact run_doc_ok. Qed.
 Print Assumptions C05_reader.
